@@ -254,6 +254,8 @@ type builder struct {
 	top *Plan
 	// store and interrupt configuration are applied at the top level only
 	store compose.CheckPointStore
+	// twins: the one Lambda value of every twin group (see Node.Twin)
+	twins map[string]*compose.Lambda
 }
 
 // statePathOf returns the path of the nearest graph with state that encloses the node.
@@ -446,6 +448,21 @@ func (b *builder) checkOpts(ctx context.Context, full string, os []lopt) {
 }
 
 func (b *builder) lambda(p *Plan, n *Node, full string) *compose.Lambda {
+	if n.Twin != "" {
+		// one Lambda value for all nodes of the twin group (per compilation)
+		tfull := strings.TrimSuffix(full, n.Key) + n.Twin
+		if l, ok := b.twins[tfull]; ok {
+			return l
+		}
+		tn := *n
+		tn.Key, tn.Twin, tn.OutKey, tn.InKey, tn.Pre, tn.Post = n.Twin, "", "", "", HNone, HNone
+		l := b.lambda(p, &tn, tfull)
+		if b.twins == nil {
+			b.twins = map[string]*compose.Lambda{}
+		}
+		b.twins[tfull] = l
+		return l
+	}
 	var fi compose.Invoke[M, M, lopt]
 	var fs compose.Stream[M, M, lopt]
 	var fc compose.Collect[M, M, lopt]
